@@ -159,7 +159,7 @@ func boundaryProp(c boundaryCase) common.Result {
 		}
 		qc := hotstuff.NewQuorumCert(padLabels(sig, ms, c), b.View(), b.Hash())
 		err = verifier.Auth.VerifyQuorumCert(qc)
-		quirk = func() bool { return kit.QuirkQC(verifier, qc) }
+		quirk = func() bool { return kit.QuirkQC(verifier, qc, err) }
 	case "tc":
 		v := hotstuff.View(5)
 		sig, cerr := kit.CombineAny(c.Scheme, verifier.Base, kit.SignEach(signers, v.ToBytes()))
@@ -168,7 +168,7 @@ func boundaryProp(c boundaryCase) common.Result {
 		}
 		tc := hotstuff.NewTimeoutCert(padLabels(sig, ms, c), v)
 		err = verifier.Auth.VerifyTimeoutCert(tc)
-		quirk = func() bool { return kit.QuirkTC(verifier, tc) }
+		quirk = func() bool { return kit.QuirkTC(verifier, tc, err) }
 	case "aggqc":
 		v := hotstuff.View(5)
 		qcs := map[hotstuff.ID]hotstuff.QuorumCert{}
@@ -188,7 +188,7 @@ func boundaryProp(c boundaryCase) common.Result {
 		}
 		agg := hotstuff.NewAggregateQC(qcs, padLabels(sig, ms, c), v)
 		_, err = verifier.Auth.VerifyAggregateQC(agg)
-		quirk = func() bool { return kit.QuirkAgg(verifier, agg) }
+		quirk = func() bool { return kit.QuirkAgg(verifier, agg, err) }
 	}
 	accepted := err == nil
 	if !accepted && c.K >= q && c.Scheme == "bls12" && quirk != nil && quirk() {
